@@ -74,6 +74,11 @@ class Run:
         return None
 
 
+# When set to a list, run_cli records its arguments there and returns a Run with exit "dry" instead of running
+# (used by C01 to collect the packages the other checks would run, DESIGN 7 C01).
+DRY_RUN: list | None = None
+
+
 def run_cli(src: Path, opts: Opts | None = None, *, out: Path | None = None, hashseed: int | str = 0,
             globperm: int | None = None, cwd: Path | None = None, spelling: str = "abs",
             timeout: int = 300, keep_out: bool = True, pythonpath: str | None = None) -> Run:
@@ -81,6 +86,9 @@ def run_cli(src: Path, opts: Opts | None = None, *, out: Path | None = None, has
     import time
 
     opts = opts or Opts()
+    if DRY_RUN is not None:
+        DRY_RUN.append({"src": Path(src), "opts": opts})
+        return Run(src=Path(src), out=Path("/nonexistent"), opts=opts, exit="dry")
     work = fresh_dir("run")
     out = out or (work / "out")
     cwd = cwd or work
